@@ -24,9 +24,12 @@ OBLIGATIONS = ["NiftyVerif.C14." + t for t in (
     "gradnorm_ctrl_sound", "gradinf_ctrl_sound", "deltaE_ctrl_sound", "absdeltaE_ctrl_sound", "stochastic_ctrl_sound",
     "norm_comparisons_sqrt_free",
     "cg_controller_replay", "cg_verdict_sound", "cg_ctrl_sound", "cg_gradnorm_sound", "cg_gradinf_sound",
-    "cg_deltaE_sound", "cg_absdeltaE_sound", "cg_stochastic_sound",
+    "cg_deltaE_sound", "cg_absdeltaE_sound", "cg_stochastic_sound", "cg_gradnorm_error_bound", "cg_energy_gap_is_error",
     "cg_alpha_positive_or_error", "cg_no_error_spd", "cg_energy_monotone",
-    "ie_modes_available", "inversion_enabler_direct", "inversion_enabler_solves")]
+    "cg_status_final", "cg_result_not_worse", "cg_conjugacy_invariants", "cg_exact_in_n_steps", "cg_exact_hermitian", "cg_exact_solution", "cg_optimal_on_subspace", "cg_optimal_on_krylov",
+    "ie_modes_available", "inversion_enabler_direct", "inversion_enabler_solves", "inversion_enabler_run",
+    "inversion_enabler_solves_gradinf", "inversion_enabler_solves_deltaE", "inversion_enabler_solves_absdeltaE",
+    "inversion_enabler_solves_stochastic", "inversion_enabler_error_bound", "complex_hermitian_covered", "cg_exact_complex", "driver_instance_lawful")]
 RULE = ("cases: (qe) QuadraticEnergy at/at_with_grad on integer systems, exact; (ctrl) each of the 5 controllers fed "
         "with generated observation sequences (exact dyadic), all levels/limits incl. degenerate; (cg) generated "
         "integer HPD systems real/complex, +-preconditioner, every controller, nreset 1..5/20, whole trajectory compared "
@@ -450,7 +453,7 @@ def compare_cg(ctx, case, out, mod):
 
 def _model_case(case, fuel=200):
     """what the model driver is sent for a case"""
-    c = {k: v for k, v in case.items() if k not in ("hpd", "klass", "family")}
+    c = {k: v for k, v in case.items() if k not in ("hpd", "klass", "family", "reuse", "pre")}
     if case.get("op") == "ctrl":       # the model reads squared norms
         c["obs"] = [[fstr(F(a) ** 2), fstr(F(b) ** 2), v] for a, b, v in case["obs"]]
     if case.get("op") in ("cg", "ie"):
@@ -478,6 +481,8 @@ def _one_cg(ctx, c, mod):
         ctx.stat(f"cg:n<={[2, 4, 8, 16, 40][sum(c['n'] > t for t in (2, 4, 8, 16))]}")
         ctx.stat(f"cg:family={c.get('family')}")
         ctx.stat(f"cg:nreset={c['nreset']}")
+        if c.get("reuse"):
+            ctx.stat("cg:controller-reused")
         if "error" in out:
             ctx.stat(f"cg:error={out['error']}")
         else:
@@ -485,6 +490,8 @@ def _one_cg(ctx, c, mod):
             ctx.stat("cg:iterations", nit)
             if out["hint"]:
                 ctx.stat(f"cg:gaveup={out['hint']}")
+        if isinstance(mod, dict) and "reason" in mod:
+            ctx.stat(f"cg:model-exit={mod['reason']}")
         why = compare_cg(ctx, c, out, mod)
         if why is not None:
             ctx.disagree(c, _strip(out), {k: mod.get(k) for k in ("status", "reason", "itcount", "ccount", "error")},
@@ -551,6 +558,8 @@ def _one_ctrl(ctx, c, mod):
     if True:
         out = impl.run_ctrl(c)
         ctx.stat(f"ctrl:{c['ctrl']['type']}")
+        if c.get("pre"):
+            ctx.stat("ctrl:controller-reused")
         if out.get("raised"):
             ctx.stat("ctrl:raised")
         for st in (out.get("res") or []):
@@ -569,6 +578,8 @@ def _one_ie(ctx, c, mod):
     if True:
         out = impl.run_ie(c)
         ctx.stat(f"ie:mode={c['mode']}:cap={c['opm']['cap']}:approx={'no' if c.get('approx') is None else c['approx']['cap']}")
+        if c.get("reuse"):
+            ctx.stat("ie:controller-reused")
         why = compare_ie(ctx, c, out, mod)
         ctx.case(c, nontrivial="error" not in out and len(out["recs"]) > 0)
         if why is not None:
@@ -579,6 +590,34 @@ def _one_ie(ctx, c, mod):
         r = oracle_ie(c)
         if r:
             ctx.counterexample(c, *r)
+
+
+def _ie_trajectory(ctx, case, out, run):
+    """the CG run inside InversionEnabler, compared like a plain cg case: the operator in the inverse mode, right-hand
+    side x, start 0, preconditioner = approximation in the requested mode, nreset 20"""
+    mode = case["mode"]
+    inv = {1: 4, 2: 8, 4: 1, 8: 2}[mode]
+    A = _ie_matrix(case, inv)
+    x = impl.cvec(case, "x")
+    P = None
+    if case.get("approx") is not None:
+        a = case["approx"]
+        M, Mi = impl.cmat(case, "mat", a), impl.cmat(case, "inv", a)
+        P = {1: M, 2: M.conj().T, 4: Mi, 8: Mi.conj().T}[mode]
+    recs = out["recs"]
+    y = out["y"]
+    checked_last = bool(recs) and np.array_equal(recs[-1]["pos"], y)
+    status = 2 if out["warned"] else 0     # CG returns CONVERGED or ERROR; InversionEnabler warns unless CONVERGED
+    if checked_last:
+        grad, value = recs[-1]["grad"], recs[-1]["value"]
+    else:       # left through gamma == 0 or an error exit after the update; that energy object is not observable
+        grad, value = _res(A, x, y), _val(A, x, y)
+    calls = [c for c in out["calls"]][1:]          # the first application is QuadraticEnergy(x0, invop, x)
+    like = dict(status=status, hint=impl._reason_from_log(out["msgs"]), pos=y, grad=grad, value=value, recs=recs,
+                itcount=out["itcount"], ccount=out["ccount"], ncalls=len(calls), A=A, b=x, P=P,
+                x0=np.zeros_like(y), calls=calls, msgs=out["msgs"])
+    pc = dict(op="cg", n=case["n"], cplx=case.get("cplx", False), ctrl=case["ctrl"], klass="T", nreset=20)
+    return compare_cg(ctx, pc, like, run)
 
 
 def compare_ie(ctx, case, out, mod):
@@ -606,6 +645,9 @@ def compare_ie(ctx, case, out, mod):
         return f"operator applied in modes {sorted(set(out['modes']))}, model: {mod['opmode']}"
     if not set(out["apmodes"]) <= {mod["apmode"]}:
         return f"approximation applied in modes {sorted(set(out['apmodes']))}, model: {mod['apmode']}"
+    why = _ie_trajectory(ctx, case, out, run)
+    if why is not None:
+        return "inner CG run: " + why
     cj = case["ctrl"]
     # controller verdict sequence (decisions outside the margin)
     for k, r in enumerate(out["recs"]):
@@ -676,7 +718,9 @@ def run(ctx):
     cases += [gen.qe_case(rng) for _ in range(ctx.n(120, 1200))]
     cases += [gen.ctrl_case(rng) for _ in range(ctx.n(500, 6000))]
     cases += gen.cg_exact_cases(rng, ctx.n(24, 120))
+    cases += gen.cg_at_solution_cases(rng, ctx.n(12, 60))
     cases += gen.cg_error_cases(rng, ctx.n(24, 120))
+    cases += gen.cg_reuse_cases(rng, ctx.n(40, 240))
     cases += [gen.cg_case(rng, nmax=8) for _ in range(ctx.n(150, 900))]
     if not ctx.quick:
         cases += [gen.cg_case(rng, nmax=40, nmin=9) for _ in range(48)]
